@@ -43,6 +43,7 @@ BUDGET = {'quick': 12, 'thorough': 120}
 K_WSGI_LINE = 'wsgi-bodiless-status-matched-by-full-line'
 K_MEDIA_CT = 'typeless-status-media-sets-content-type'
 K_STATUS_SUBCLASS = 'wsgi-str-subclass-status-line-passed-through'
+K_INTENUM = 'asgi-intenum-status-passed-through'
 MAX_EVENTS = 500      # a response of at most ~10 chunks never needs more; stops runaway streams
 
 
@@ -250,6 +251,46 @@ class AsyncIterClose(AsyncIter):
         self.log.closes += 1
 
 
+class AsyncIterCloseAclose(AsyncIterClose):
+    """Offers both spellings, aclose() being the usual alias of close()."""
+
+    async def aclose(self):
+        await self.close()
+
+    async def __aenter__(self):
+        return self
+
+    async def __aexit__(self, *exc):
+        await self.close()
+
+
+class AsyncIterableClose:
+    """Async iterable (not its own iterator) that owns the resource: close()/aclose() are on the iterable."""
+
+    def __init__(self, log, chunks, raise_at, yieldy):
+        self.log, self.chunks, self.raise_at, self.yieldy = log, chunks, raise_at, yieldy
+        log.has_close = True
+
+    def __aiter__(self):
+        return AsyncIterStop(self.log, self.chunks, self.raise_at, self.yieldy)
+
+    async def close(self):
+        self.log.closes += 1
+
+    async def aclose(self):
+        await self.close()
+
+
+class SyncIterCloseExit(SyncIterClose):
+    """close() plus the context-manager spelling of the same clean-up."""
+
+    def __enter__(self):
+        return self
+
+    def __exit__(self, *exc):
+        self.close()
+
+
 class AsyncFileNoClose:
     """none_reads: chunk indices before which one read() answers None ('no data available yet', as a
     non-blocking raw stream does - io.RawIOBase.read); index len(chunks) = just before EOF."""
@@ -289,11 +330,32 @@ class AsyncFile(AsyncFileNoClose):
         self.log.closes += 1
 
 
-WSGI_KINDS = ['list', 'gen', 'iter', 'iter_close', 'iterable_close', 'file', 'file_noclose', 'bytesio']
-ASGI_KINDS = ['agen', 'aiter_none', 'aiter_stop', 'aiter_close', 'afile', 'afile_noclose']
-FILE_KINDS = frozenset(['file', 'file_noclose', 'bytesio', 'afile', 'afile_noclose'])
+class AsyncFileCloseAclose(AsyncFile):
+    async def aclose(self):
+        await self.close()
+
+    async def __aexit__(self, *exc):
+        await self.close()
+
+
+class SyncFileCloseExit(SyncFile):
+    def __enter__(self):
+        return self
+
+    def __exit__(self, *exc):
+        self.close()
+
+
+WSGI_KINDS = ['list', 'gen', 'iter', 'iter_close', 'iterable_close', 'file', 'file_noclose', 'bytesio',
+              'iter_close_exit', 'file_close_exit']
+ASGI_KINDS = ['agen', 'aiter_none', 'aiter_stop', 'aiter_close', 'afile', 'afile_noclose',
+              'aiter_close_aclose', 'aiterable_close_aclose', 'afile_close_aclose']
+FILE_KINDS = frozenset(['file', 'file_noclose', 'bytesio', 'afile', 'afile_noclose', 'file_close_exit',
+                        'afile_close_aclose'])
 CAN_RAISE = frozenset(WSGI_KINDS + ASGI_KINDS) - {'list'}
-HAS_CLOSE = frozenset(['gen', 'iter_close', 'iterable_close', 'file', 'bytesio', 'aiter_close', 'afile'])
+HAS_CLOSE = frozenset(['gen', 'iter_close', 'iterable_close', 'file', 'bytesio', 'aiter_close', 'afile',
+                       'iter_close_exit', 'file_close_exit', 'aiter_close_aclose', 'aiterable_close_aclose',
+                       'afile_close_aclose'])
 
 
 def make_stream(st, log):
@@ -323,6 +385,16 @@ def make_stream(st, log):
         return AsyncIterStop(log, chunks, raise_at, y)
     if kind == 'aiter_close':
         return AsyncIterClose(log, chunks, raise_at, y)
+    if kind == 'aiter_close_aclose':
+        return AsyncIterCloseAclose(log, chunks, raise_at, y)
+    if kind == 'aiterable_close_aclose':
+        return AsyncIterableClose(log, chunks, raise_at, y)
+    if kind == 'afile_close_aclose':
+        return AsyncFileCloseAclose(log, chunks, raise_at, y, st.get('none_reads'))
+    if kind == 'iter_close_exit':
+        return SyncIterCloseExit(log, chunks, raise_at)
+    if kind == 'file_close_exit':
+        return SyncFileCloseExit(log, chunks, raise_at)
     if kind == 'afile':
         return AsyncFile(log, chunks, raise_at, y, st.get('none_reads'))
     if kind == 'afile_noclose':
@@ -928,8 +1000,15 @@ def classify(kind, r, problem=None):
         # str subclass reaches start_response as it is (wsgiref: AssertionError 'Status must be of type str')
         if (kind == 'protocol-wsgi' and str(problem).startswith('status is not a native str')) or kind == 'status-line':
             return K_STATUS_SUBCLASS
-    custom_line = (r['stack'] == 'wsgi' and (r['status'][0] == 'line' or (r['status'][0] == 'bytes' and
-                                                                          ' ' in r['status'][1]))
+    if r['stack'] == 'asgi' and kind == 'protocol-asgi' and \
+            str(problem).startswith('status is not an int in range: <IntEnumStatus.'):
+        # falcon/util/misc.py http_status_to_code: `if isinstance(status, int): return status` hands a member of an
+        # application IntEnum to the server as it is (http.HTTPStatus members are unwrapped with .value); the
+        # lru_cache in front of it then answers the same member for every later equal status (int, HTTPStatus)
+        return K_INTENUM
+    custom_line = (r['stack'] == 'wsgi' and (r['status'][0] == 'line' or
+                                             (r['status'][0] in ('bytes', 'strsub', 'strsub_odd', 'strenum') and
+                                              ' ' in r['status'][1]))
                    and code in M.BODILESS and
                    r['status'][1] not in ('100 Continue', '101 Switching Protocols', '204 No Content',
                                           '304 Not Modified'))
@@ -947,9 +1026,39 @@ def classify(kind, r, problem=None):
     return None
 
 
+def _clear_status_caches():
+    """falcon memoises status normalisation per *equal* status (functools.lru_cache): start every case from an
+    empty cache so that a verdict depends on the recipe alone; earlier statuses are part of a recipe only through
+    r['status_before'] (replayable)."""
+    import falcon.util.misc as misc
+    for fn in (misc.http_status_to_code, misc.code_to_http_status):
+        clear = getattr(fn, 'cache_clear', None)
+        if clear is not None:
+            clear()
+
+
+def _warm(stack, spec):
+    """An earlier request of the same process that answered with status `spec` (result not judged here)."""
+    warm = {'stack': stack, 'method': 'GET', 'status': spec, 'text': None, 'data': None, 'media': ['unset'],
+            'stream': None, 'sse': None, 'ct': None, 'cl': None}
+    CUR['r'], CUR['obs'] = warm, Obs()
+    try:
+        app = get_app(stack, 'std', None)
+        if stack == 'wsgi':
+            W.run_wsgi(app, W.make_environ('GET', '/r'))
+        else:
+            A.run_asgi_http(app, A.make_scope('GET', '/r'), max_events=MAX_EVENTS)
+    finally:
+        CUR['r'] = CUR['obs'] = None
+
+
 def run_case(rec, r):
     """Execute one recipe behind the driver of its stack and evaluate every monitor."""
     stack = r['stack']
+    _clear_status_caches()
+    for spec in r.get('status_before') or []:
+        _warm('asgi' if stack == 'wsgi' else 'wsgi', spec)
+        _warm(stack, spec)
     obs = Obs()
     obs.sse_log = None
     CUR['r'], CUR['obs'] = r, obs
@@ -1081,7 +1190,7 @@ def judge(rec, r, res, obs):
         mon('response_start_once')
         if starts != (0 if (server_failed and res.send_failed_at == 0) else 1):
             bad('response-start-count', n=starts)
-        if started:
+        if started and res.status is not None:      # (None: the monitor rejected the status; reported above)
             mon('status_code')
             if res.status != code:
                 bad('status-code', want_code=code)
@@ -1291,6 +1400,8 @@ def note_coverage(rec, r, res, obs):
     rec.count('via.' + r.get('via', 'responder'))
     if r.get('text_as') and src == 'text':
         rec.count('text_as.%s.%s.%s' % (r['text_as'], stack, r.get('rc', 'std')))
+    if r.get('status_before'):
+        rec.count('status_sequences')
     if r.get('fw'):
         rec.count('wsgi.file_wrapper')
     if r.get('prerender') is not None:
@@ -1347,6 +1458,10 @@ STATUSES = [
     ['bytes', '200 OK'], ['bytes', '404 Not Found'], ['bytes', '702 Emacs'], ['bytes', '204 No Content'],
     ['bytes', '304 Unchanged'], ['bytes', '200'], ['bytes', '204'], ['bytes', '304'], ['bytes', '101'],
     ['bytes', '299'], ['bytes', '598'], ['strsub', '201 Created'], ['strsub', '404'],
+    ['strsub_odd', '201 Created'], ['strsub_odd', '204 No Content'], ['strsub_odd', '404'], ['strsub_odd', '299'],
+    ['strenum', '201 Created'], ['strenum', '204 No Content'], ['strenum', '304 Not Modified'],
+    ['strenum', '418 Short And Stout'], ['strenum', '204 Nothing Here'], ['strenum', '404'], ['strenum', '204'],
+    ['strenum', '598'], ['intenum', 200], ['intenum', 204], ['intenum', 418], ['intenum', 299], ['intenum', 101],
     ['enum', 418], ['enum', 204], ['enum', 304], ['enum', 100], ['enum', 200],
 ]
 METHODS = ['GET', 'HEAD', 'POST', 'OPTIONS']
@@ -1447,6 +1562,31 @@ def decor_cases(stack):
                 yield dict(base, headers=sorted(HEADER_OPS)[:12], cookies=sorted(COOKIE_OPS))
                 yield dict(base, headers=[h for h in sorted(HEADER_OPS)[12:] if h != 'viewable_as'],
                            cookies=sorted(COOKIE_OPS), media=['set', [1]])
+
+
+def status_sequence_cases(stack):
+    """Equal-but-distinct statuses one after the other in one process (falcon memoises the normalisation by
+    equality): every ordered pair of spellings of one code, and a cache driven past its size in between."""
+    groups = {}
+    for spec in STATUSES:
+        groups.setdefault(M.status_code(spec), []).append(spec)
+    n = 0
+    filler = [['int', c] for c in range(500, 570)]           # 70 > the 64 entries of the caches
+    for code, specs in sorted(groups.items()):
+        for a in specs:
+            for b in specs:
+                if a == b:
+                    continue
+                n += 1
+                r = {'stack': stack, 'method': 'HEAD' if n % 7 == 0 else 'GET', 'status': b, 'text': None, 'data': None,
+                     'media': ['unset'], 'stream': None, 'sse': None, 'ct': None, 'cl': None,
+                     'rc': RESP_CLASSES[n % 3], 'status_before': [a]}
+                if n % 2:
+                    r['text'] = 'body'
+                yield r
+                if n % 9 == 0:
+                    yield dict(r, status_before=[a] + filler + [specs[n % len(specs)]])
+                    yield dict(r, status_before=[a, b, a])
 
 
 LATE_OPS = sorted(k for k in NONSTR_OPS if k.startswith(('snap_', 'arg_')))
@@ -1838,6 +1978,8 @@ def run(rec):
         'time: mutating the copy or an argument object afterwards must leave the response alone',
         'resp.text accepts every string-like object offering encode() (str subclass, UserString, lazy string) and '
         'bytes, as all three copies of the rendering logic implement by EAFP; the body is the UTF-8 of its value',
+        'falcon\'s lru caches of status normalisation are cleared before every case (functools cache_clear) so that a '
+        'verdict depends on the recipe alone; equal-but-distinct statuses in sequence are explicit recipes (status_before)',
         'byte-string statuses (line or bare code) are accepted input (falcon\'s suite assigns resp.status = b\'200 OK\'); '
         'other spellings int() would accept (float, signs, underscores, whitespace) are not generated',
         'read() of an ASYNC file-like may answer None (no data yet, io.RawIOBase convention; falcon normalises it to an '
@@ -1847,7 +1989,8 @@ def run(rec):
     idx = 0
     for stack in ('wsgi', 'asgi'):
         for gen in (grid_cases(stack), falsy_cases(stack), decor_cases(stack), fault_cases(stack, big=not quick),
-                    render_fail_cases(stack), history_cases(stack), late_cases(stack), text_object_cases(stack)):
+                    render_fail_cases(stack), history_cases(stack), late_cases(stack), text_object_cases(stack),
+                    status_sequence_cases(stack)):
             for r in gen:
                 idx += 1
                 if idx % rec.nshards != rec.shard:
@@ -1904,7 +2047,7 @@ def run(rec):
         rec.floor('rc.' + rc, 50)
     for via in ('responder', 'mw', 'sink'):
         rec.floor('via.' + via, 20)
-    for sk in ('int', 'line', 'digits', 'enum', 'bytes', 'strsub'):
+    for sk in ('int', 'line', 'digits', 'enum', 'bytes', 'strsub', 'strsub_odd', 'strenum', 'intenum'):
         rec.floor('status_kind.' + sk, 50)
     rec.floor('random.cases', 200)
     rec.floor('prerender', 20)
@@ -1917,6 +2060,7 @@ def run(rec):
     rec.floor('mon.render_fail.content_length_equals_body', 100)
     rec.floor('streamed.asgi.read_answered_none', 50)
     rec.floor('mon.late_ops_leave_response_alone', 500)
+    rec.floor('status_sequences', 500)
     for t in TEXT_AS:
         for stack in ('wsgi', 'asgi'):
             for rc in RESP_CLASSES:
